@@ -74,6 +74,21 @@ def deduplicate_attrs(known, mapping):
     return variables | valmap(compose_left(second, first), attrs)
 
 
+def flatten_nested(mapping):
+    # nested sections (e.g. `platform_velocity` with `x`, `y` and `z`) become
+    # `platform_velocity_x` etc., so every field ends up as a per-line variable
+    def _flatten(mapping):
+        for key, value in mapping.items():
+            if not isinstance(value, dict):
+                yield key, value
+                continue
+
+            for subkey, subvalue in flatten_nested(value).items():
+                yield f"{key}_{subkey}", subvalue
+
+    return dict(_flatten(mapping))
+
+
 def transform_line_metadata(metadata):
     ignored = [
         "preamble",
@@ -108,9 +123,9 @@ def transform_line_metadata(metadata):
     }
     merged = pipe(
         metadata,
+        curry(map, compose_left(curry(dissoc, ignored), flatten_nested)),
         curry(starcall, curry(merge_with, list)),
         curry(remove_spares),
-        curry(dissoc, ignored),
         curry(valmap, compose_left(separate_attrs, curry(cons, "rows"), tuple)),
         curry(deduplicate_attrs, known_attrs),
         curry(apply_overrides, dtype_overrides),
